@@ -591,6 +591,13 @@ func (e *eval) step(i int, op *Op, res *Result) {
 					probe := &eval{o: e.o, doc: rj.Clone(dst)}
 					probe.addAt(probe.doc, ptoks[len(ptoks)-1], rj.NewNull())
 				}()
+				// An index problem at the destination has no error class of its own in the statement, and "exactly
+				// when it is a copy that pushed the total over the limit" (C08) / "as soon as the total exceeds the
+				// limit" (C12) speak for the limit: only a coinciding cause that the statement also names a class for
+				// (an unreachable parent - reported above, before the total is formed) leaves the class open.
+				if alt != AbsentMember && alt != ParentUnreachable {
+					alt = None
+				}
 				panic(failure{c: CopyLimit, alt: alt})
 			}
 			res.LimitWindow = true
